@@ -82,6 +82,7 @@ func faultEnumerate(e *Engine, base Tx, label string) {
 }
 
 func runC14(rc *RunCtx) {
+	defer ProbeHistory(rc, rc.Pick(200, 800), rc.Shard%2 == 1)
 	r := rc.Rand
 	nonce := uint64(700000 + rc.Shard*100000)
 	for h := 0; h < rc.Pick(2, 6); h++ {
@@ -336,6 +337,7 @@ func runC15(rc *RunCtx) {
 		rc.Cov.Sample(map[string]interface{}{"history_tail": e.history[max(0, len(e.history)-8):]})
 	}
 	c15Confusables(rc)
+	ProbeHistory(rc, rc.Pick(240, 900), false)
 	_ = ref.Pad32
 }
 
